@@ -987,3 +987,38 @@ func isParamOrResult(fi *FuncInfo, v *types.Var) bool {
 	}
 	return false
 }
+
+
+// copyClosure: obj and every local variable that receives it through plain copies (`x = obj`, also inside parallel
+// assignments), transitively; flow-insensitive.
+func copyClosure(info *types.Info, body ast.Node, obj types.Object) map[types.Object]bool {
+	set := map[types.Object]bool{}
+	if obj == nil {
+		return set
+	}
+	set[obj] = true
+	for changed := true; changed; {
+		changed = false
+		ast.Inspect(body, func(n ast.Node) bool {
+			as, ok := n.(*ast.AssignStmt)
+			if !ok || len(as.Lhs) != len(as.Rhs) {
+				return true
+			}
+			for i, l := range as.Lhs {
+				y := objOf(info, as.Rhs[i])
+				if y == nil || !set[y] {
+					continue
+				}
+				if _, isID := ast.Unparen(as.Rhs[i]).(*ast.Ident); !isID {
+					continue
+				}
+				if x, isVar := objOf(info, l).(*types.Var); isVar && !x.IsField() && !set[x] {
+					set[x] = true
+					changed = true
+				}
+			}
+			return true
+		})
+	}
+	return set
+}
